@@ -165,3 +165,61 @@ func init() {
 		},
 	}
 }
+
+// structFields implements vpStructFields(dst interface{}, tag string) []vpFieldRef: the exported
+// fields of the struct dst points to, each with its key under the given struct tag (the tag's name
+// part, else the Go field name), its Go name, its kind (0 string, 1 int, 2 bool, 3 other) and a
+// typed pointer to it. Reflection-driven decoders (mapstructure) are modelled in ordinary Go on
+// top of this list.
+func (e *Engine) structFields(args []Value) Value {
+	dst, ok := args[0].(Iface)
+	if !ok || dst.T == nil {
+		e.unsupported("vpStructFields: nil destination")
+	}
+	pt, ok := dst.T.Underlying().(*types.Pointer)
+	if !ok {
+		e.unsupported("vpStructFields: destination %s is not a pointer", dst.T)
+	}
+	base, ok := dst.V.(Ptr)
+	if !ok || base.IsNil() {
+		e.unsupported("vpStructFields: nil pointer")
+	}
+	st, ok := pt.Elem().Underlying().(*types.Struct)
+	if !ok {
+		e.unsupported("vpStructFields: destination %s is not a pointer to a struct", dst.T)
+	}
+	tag := e.strArg(args[1], "vpStructFields tag")
+	var out []Value
+	for i := 0; i < st.NumFields(); i++ {
+		f := st.Field(i)
+		if !f.Exported() {
+			continue
+		}
+		key := f.Name()
+		tv := reflect.StructTag(st.Tag(i)).Get(tag)
+		for k := 0; k < len(tv); k++ {
+			if tv[k] == ',' {
+				tv = tv[:k]
+				break
+			}
+		}
+		if tv != "" {
+			key = tv
+		}
+		kind := 3
+		var ps, pi, pb Value = Ptr{}, Ptr{}, Ptr{}
+		p := base.Sub(i)
+		if b, ok := f.Type().Underlying().(*types.Basic); ok {
+			switch {
+			case b.Kind() == types.String:
+				kind, ps = 0, p
+			case b.Kind() == types.Int:
+				kind, pi = 1, p
+			case b.Kind() == types.Bool:
+				kind, pb = 2, p
+			}
+		}
+		out = append(out, &StructV{F: []Value{ConstStr(key), ConstStr(f.Name()), smt.BV(uint64(kind), 64), ps, pi, pb}})
+	}
+	return e.newSliceVals(out)
+}
